@@ -163,7 +163,19 @@ package core
 
 //@ func (p *Payload) UnpackInterfaces(unpacker) (err)
 //@   requires[base] tag(unpacker) != 0
-//@   modifies heap, unpack_ok
+//@   modifies unpack_ok, fieldheap("github.com/cosmos/cosmos-sdk/codec/types.Any", "cachedValue")
 //@   loop 0 invariant[C15] forall j int :: 0 <= j && j < idx && p.PreActions[j] != nil ==> unpack_ok[p.PreActions[j].Attributes]
 //@   ensures[C15] err == nil ==> forall j int :: 0 <= j && j < len(p.PreActions) && p.PreActions[j] != nil ==> unpack_ok[p.PreActions[j].Attributes]
 //@   ensures[C15] err == nil && p.Forwarding != nil ==> unpack_ok[p.Forwarding.Attributes]
+//@   ensures[C15] p == nil ==> err != nil
+
+//   The wrapper the memo is decoded into hands both to the payload inside it, errors included.
+//@ func (pw *PayloadWrapper) UnpackInterfaces(unpacker) (err)
+//@   requires[base] tag(unpacker) != 0 && pw != nil
+//@   modifies unpack_ok, fieldheap("github.com/cosmos/cosmos-sdk/codec/types.Any", "cachedValue")
+//@   ensures[C15] err == nil && pw.Orbiter != nil ==> (forall j int :: 0 <= j && j < len(pw.Orbiter.PreActions) && pw.Orbiter.PreActions[j] != nil ==> unpack_ok[pw.Orbiter.PreActions[j].Attributes]) &&
+//@                (pw.Orbiter.Forwarding != nil ==> unpack_ok[pw.Orbiter.Forwarding.Attributes])
+//@   ensures[C15] pw.Orbiter == nil ==> err != nil
+
+//@ func (pw *PayloadWrapper) Validate() (err)
+//@   ensures[C15] err == nil ==> pw != nil && payloadOK(pw.Orbiter)
